@@ -5,6 +5,8 @@ ROOT = os.path.dirname(os.path.dirname(os.path.abspath(__file__)))
 TECH_V = 'contract-based deductive verification: Verus (Z3) on functions mechanically extracted from /repo on every run, contracts spliced from /verif/specs'
 TECH_K = 'contract-based deductive verification: Kani/CBMC complete (loop-free, full-domain) harness-contracts on the real compiled crates'
 CLAIMED = {
+ 'C01': dict(engine='verus', tech=TECH_V + ' (E2 fragment); bounded response table stand-in (labelled bounded, never counted)', text='Kernel contract only: the type-condition expression of Fields::add_set is proved equal to the spec\'s DoesFragmentTypeApply (same object type, implemented interface, or union membership) for every registry -- except for union conditions on a concrete object, which it misses (open known finding, carved out and re-confirmed on every run). Collection, merging, ordering and pruning are only sampled by a hand-written response table.',
+             note='Trusted: registry field-subset shims, String equality axiom; the fragment\'s free variables are parameters (surrounding control flow unverified). Not covered: the async collection loop, create_value_object / insert_value, remove_skipped_selection, resolve_list, derive output.'),
  'C03': dict(engine='verus', tech=TECH_V + ' (await-erased); bounded response table stand-in (labelled bounded, never counted)', text='Kernel contract only: <Option<T> as OutputType>::resolve (await-erased) is proved to turn an inner error into Ok(Null) with the error recorded exactly once, and to leave successful values and the error list untouched. Error propagation through the executor is only sampled by a hand-written response table (three open known findings).',
              note='Trusted: await-erasure (sequential reading), Mutex-guarded error list as &mut state, abstract inner resolve. Not covered: try_join_all short-circuiting, list items, derive-generated resolve_field, dynamic executor, subscriptions.'),
  'C06': dict(engine='verus', tech=TECH_V + '; bounded coercion-table stand-in (labelled bounded, never counted)', text='Kernel contracts only: <Option<T> as InputType>::parse and <MaybeUndefined<T> as InputType>::parse are proved to map omitted / null / value exactly as CoerceArgumentValues prescribes (omitted and null -> None; Undefined / Null / Value), delegating non-null values to the wrapped type. Variable substitution and defaults are only sampled by a hand-written coercion table on a static and a dynamic schema.',
